@@ -542,23 +542,20 @@ def case_imaging(ctx, H, W, kernels):
 
 # ------------------------------------------------------------------------------------------- zoom
 
-def body_zoom(inp, H, W, buffers):
-    """zoomed_around_mask returns a window of the native array that contains every unmasked pixel with its value"""
+def _zoom_obligations(A, E, pre, m, mask, v, H, W, buffers):
+    """obligations for zooming around mask object `m` whose CURRENT content is `mask`: the window of
+    Array2D(v, m).zoomed_around_mask(buffer) contains every unmasked pixel with its value"""
     import autoarray as aa
-    mask = np.array(inp["mask"], dtype=bool).reshape(H, W)
-    v = np.asarray(inp["v"]).reshape(H, W)
-    m = aa.Mask2D(mask=mask, pixel_scales=(1.0, 2.0), origin=(0.5, -0.25))
     arr = aa.Array2D(values=v, mask=m)
     lab = aa.Array2D(values=labelled(H, W), mask=m)
     vin = masked_zero(v, mask)
     pos = [(y, x) for y in range(H) for x in range(W) if not mask[y, x]]
-    A, E = {}, {}
     reg = hx.attempt(lambda: [int(e) for e in m.zoom_region])
-    A["zoom_region_contains_unmasked"] = reg if isinstance(reg, hx.Raised) else bool(
+    A[pre + "zoom_region_contains_unmasked"] = reg if isinstance(reg, hx.Raised) else bool(
         all(reg[0] <= y < reg[1] and reg[2] <= x < reg[3] for (y, x) in pos))
-    E["zoom_region_contains_unmasked"] = True
+    E[pre + "zoom_region_contains_unmasked"] = True
     for buf in buffers:
-        tag = "buffer=%d:" % buf
+        tag = pre + "buffer=%d:" % buf
         z = hx.attempt(lambda: arr.zoomed_around_mask(buffer=buf))
         zn = _nat(z)
         if isinstance(zn, hx.Raised):
@@ -580,7 +577,55 @@ def body_zoom(inp, H, W, buffers):
         E[tag + "window_of_native"] = [vin[r + wy, c + wx] for (r, c) in infr]
         A[tag + "zoomed_mask_all_false"] = bool(not np.array(z.mask.array, dtype=bool).any())
         E[tag + "zoomed_mask_all_false"] = True
+
+
+def body_zoom(inp, H, W, buffers):
+    """zoomed_around_mask returns a window of the native array that contains every unmasked pixel with its value"""
+    import autoarray as aa
+    mask = np.array(inp["mask"], dtype=bool).reshape(H, W)
+    v = np.asarray(inp["v"]).reshape(H, W)
+    m = aa.Mask2D(mask=mask, pixel_scales=(1.0, 2.0), origin=(0.5, -0.25))
+    A, E = {}, {}
+    _zoom_obligations(A, E, "", m, mask, v, H, W, buffers)
     return A, E
+
+
+ZOOM_READS = ("zoom_region", "zoom_shape_native", "zoom_centre", "zoom_offset_pixels", "zoom_offset_scaled",
+              "zoom_mask_unmasked", "mask_centre", "shape_native_masked_pixels")
+
+
+def body_zoom_history(inp, H, W, buffers):
+    """histories: zoom around a mask object (every public zoom quantity is read), edit ONE pixel of the same object in place
+    (Mask2D.__setitem__, every pixel, the flipped value), then zoom again: the second zoom must describe the CURRENT mask"""
+    import autoarray as aa
+    mask = np.array(inp["mask"], dtype=bool).reshape(H, W)
+    v = np.asarray(inp["v"]).reshape(H, W)
+    A, E = {}, {}
+    for y in range(H):
+        for x in range(W):
+            mask2 = mask.copy()
+            mask2[y, x] = not mask[y, x]
+            if mask2.all():
+                continue
+            m = aa.Mask2D(mask=mask.copy(), pixel_scales=(1.0, 2.0), origin=(0.5, -0.25))
+            first = aa.Array2D(values=v, mask=m)
+            for name in ZOOM_READS:
+                hx.attempt(lambda: getattr(m, name))
+            for buf in buffers:
+                hx.attempt(lambda: first.zoomed_around_mask(buffer=buf))
+                hx.attempt(lambda: first.extent_of_zoomed_array(buffer=buf))
+            m[y, x] = bool(mask2[y, x])
+            pre = "zoom; mask[%d,%d]=%s; zoom:" % (y, x, bool(mask2[y, x]))
+            A[pre + "mask_object_holds_the_edit"] = np.array(m.array, dtype=bool)
+            E[pre + "mask_object_holds_the_edit"] = mask2
+            _zoom_obligations(A, E, pre, m, mask2, v, H, W, buffers)
+    return A, E
+
+
+def case_zoom_history(ctx, H, W, buffers):
+    mask = _fork_mask(ctx, H, W)
+    inputs = {"mask": mask, "v": V.real_array("v", (H, W))}
+    hx.run_body(ctx, body_zoom_history, inputs, {"H": H, "W": W, "buffers": buffers}, validate_every=32)
 
 
 def case_zoom(ctx, H, W, buffers):
@@ -591,7 +636,8 @@ def case_zoom(ctx, H, W, buffers):
 
 BODIES = {"case_kernel": body_kernel, "case_extract": body_extract, "case_array_resize": body_array_resize,
           "case_masked_resize": body_masked_resize, "case_pad_trim": body_pad_trim, "case_imaging": body_imaging,
-          "case_zoom": body_zoom, "case_mask_trim": body_mask_trim}
+          "case_zoom": body_zoom, "case_mask_trim": body_mask_trim,
+          "case_zoom_history": body_zoom_history}
 
 
 # ------------------------------------------------------------------------------------------- case lists
@@ -633,11 +679,14 @@ def cases(tier):
         n = H * W
         out.append(("case_zoom", {"H": H, "W": W, "buffers": [0, 1, 2] if quick else [0, 1, 2, 3]},
                     {"split": 0 if n < 8 else (3 if n <= 10 else 5)}))
+    for (H, W) in _shapes(6 if quick else 8, 6):
+        n = H * W
+        out.append(("case_zoom_history", {"H": H, "W": W, "buffers": [0, 1]}, {"split": 0 if n < 6 else (2 if n <= 6 else 4)}))
 
     def weight(c):
         kw = c[1]
         n = kw.get("H", kw.get("Hp")) * kw.get("W", kw.get("Wp"))
-        heavy = c[0] in ("case_masked_resize", "case_imaging", "case_zoom") or kw.get("all_masks")
+        heavy = c[0] in ("case_masked_resize", "case_imaging", "case_zoom", "case_zoom_history") or kw.get("all_masks")
         return -(2 ** n if heavy else n)
 
     out.sort(key=weight)
